@@ -23,7 +23,10 @@ ATOM_KINDS_FOR = {"standardize_cell": ["cubic", "cubic-permuted", "cubic-rotated
                   "shrink_cell": ["graphene", "hex-bulk", "fcc-primitive", "sheared", "cubic"]}
 MEAS_METHODS = ["real", "imag", "phase", "abs", "intensity", "interpolate", "crop", "gaussian_filter", "tile", "mean", "sum",
                 "to_cpu", "copy", "poisson_noise", "__getitem__", "squeeze", "expand_dims", "__add__", "__mul__", "normalize_ensemble",
-                "relative_difference", "interpolate_line_at_position", "center_of_mass", "integrate_radial", "block_direct"]
+                "relative_difference", "interpolate_line_at_position", "center_of_mass", "integrate_radial", "block_direct",
+                "std", "min", "max", "__sub__", "__truediv__", "__pow__", "apply_func", "rechunk", "reduce_ensemble",
+                "integrated_center_of_mass", "gaussian_source_size", "azimuthal_average", "polar_binning", "radial_binning",
+                "bandlimit", "integrate_disc", "diffractograms", "integrate", "to_diffraction_patterns_noop"]
 
 
 def meas_applicable(method, kind):
@@ -37,8 +40,15 @@ def meas_applicable(method, kind):
         return base == "Images"
     if method in ("gaussian_filter", "interpolate_line_at_position"):
         return base in ("Images", "DiffractionPatterns")
-    if method in ("center_of_mass", "block_direct"):
+    if method in ("center_of_mass", "block_direct", "integrated_center_of_mass", "gaussian_source_size", "azimuthal_average",
+                  "polar_binning", "radial_binning", "bandlimit"):
         return base == "DiffractionPatterns"
+    if method in ("diffractograms", "integrate_disc"):
+        return base == "Images"
+    if method == "integrate":
+        return base == "PolarMeasurements"
+    if method == "to_diffraction_patterns_noop":
+        return False
     if method == "integrate_radial":
         return base in ("DiffractionPatterns", "PolarMeasurements")
     if method == "interpolate":
@@ -137,9 +147,9 @@ def call_atoms(name, a, rng):
     if name == "Potential.to_images":
         return abtem.Potential(a, sampling=0.4, slice_thickness=2.0, projection="infinite").build(lazy=False).to_images()
     if name == "flip_atoms":
-        return AT.flip_atoms(a) if hasattr(AT, "flip_atoms") else None
+        return AT.flip_atoms(a)
     if name == "merge_close_atoms":
-        return AT.merge_close_atoms(a) if hasattr(AT, "merge_close_atoms") else None
+        return AT.merge_close_atoms(a)
     if name == "orthogonalize_cell":
         return AT.orthogonalize_cell(a, max_repetitions=3)
     if name == "orthogonalize_cell_origin":
@@ -169,11 +179,11 @@ def call_atoms(name, a, rng):
     if name == "rotate_atoms_to_plane":
         return AT.rotate_atoms_to_plane(a, rng.choice(["xy", "xz", "yz"]))
     if name == "atoms_in_cell":
-        return AT.atoms_in_cell(a, margin=0.5) if hasattr(AT, "atoms_in_cell") else None
+        return AT.atoms_in_cell(a, margin=0.5)
     if name == "wrapped":
-        return AT.wrap_with_tolerance(a) if hasattr(AT, "wrap_with_tolerance") else None
+        return AT.wrap_with_tolerance(a)
     if name == "shrink_cell":
-        return AT.shrink_cell(a) if hasattr(AT, "shrink_cell") else None
+        return AT.shrink_cell(a)
     if name == "is_cell_orthogonal":
         return AT.is_cell_orthogonal(a)
     if name == "rotate_atoms":
@@ -182,12 +192,14 @@ def call_atoms(name, a, rng):
 
 
 # ------------------------------------------------------------------ measurements
-def gen_measurement(rng, kind, force_ens=False):
+def gen_measurement(rng, kind, force_ens=False, lazy=False, scan=False):
     from abtem import measurements as M
     from abtem.core import axes as A
     nprng = np.random.default_rng(rng.randint(0, 10**6))
     ens = [A.ParameterAxis(label="C10", values=(1.0, 2.0), units="Å")] if (rng.random() < 0.5 or force_ens) else []
-    es = (2,) if ens else ()
+    if scan:   # 4-D STEM-like: two scan axes in front
+        ens = ens + [A.ScanAxis(label="x", sampling=0.5, units="Å"), A.ScanAxis(label="y", sampling=0.5, units="Å")]
+    es = tuple(2 if isinstance(a, A.ParameterAxis) else 3 for a in ens)
     cplx = kind.endswith("-complex")
     base = kind.split("-")[0]
 
@@ -197,6 +209,11 @@ def gen_measurement(rng, kind, force_ens=False):
     md = {"label": "orig", "units": "e", "energy": 100e3, "note": (1, 2)}
     if base == "DiffractionPatterns":   # metadata values may be numpy arrays (mutable), e.g. a cutoff computed with numpy
         md["semiangle_cutoff"] = np.array(10.0)
+    m = _make_measurement(M, base, arr, es, ens, md)
+    return m.ensure_lazy() if lazy else m
+
+
+def _make_measurement(M, base, arr, es, ens, md):
     if base == "Images":
         return M.Images(arr(es + (6, 6)), sampling=0.2, ensemble_axes_metadata=ens, metadata=md)
     if base == "DiffractionPatterns":
@@ -215,13 +232,14 @@ MEAS_KINDS = ["Images-complex", "Images-real", "DiffractionPatterns-complex", "D
 
 
 def snapshot_meas(m):
-    return {"array": np.array(m.array, copy=True), "metadata": copy.deepcopy(m.metadata),
+    return {"array": np.array(m.compute().array if m.is_lazy else m.array, copy=True), "lazy": m.is_lazy, "metadata": copy.deepcopy(m.metadata),
             "axes": [copy.deepcopy(a) for a in m.axes_metadata], "kwargs": repr(sorted(m._copy_kwargs(exclude=("array",)).keys()))}
 
 
 def changed_meas(s, m):
     out = []
-    if not np.array_equal(s["array"], np.asarray(m.array), equal_nan=True) or s["array"].dtype != np.asarray(m.array).dtype:
+    now = np.asarray(m.compute().array if m.is_lazy else m.array)
+    if m.is_lazy != s["lazy"] or not np.array_equal(s["array"], now, equal_nan=True) or s["array"].dtype != now.dtype:
         out.append("array")
     if list(s["metadata"]) != list(m.metadata) or any(
             not np.array_equal(np.asarray(s["metadata"][k], dtype=object), np.asarray(m.metadata[k], dtype=object)) for k in s["metadata"]):
@@ -248,8 +266,38 @@ def call_meas(name, m, rng):
         return m.gaussian_filter(0.3) if hasattr(m, "gaussian_filter") else "n/a"
     if name == "tile":
         return m.tile((2, 1)) if hasattr(m, "tile") and m.base_dims == 2 else "n/a"
-    if name in ("mean", "sum"):
+    if name in ("mean", "sum", "std", "min", "max"):
         return getattr(m, name)(axis=0) if m.ensemble_shape else "n/a"
+    if name == "__sub__":
+        return m - m
+    if name == "__truediv__":
+        return m / 2.0
+    if name == "__pow__":
+        return m ** 2
+    if name == "apply_func":
+        return m.apply_func(lambda a: a * 2)
+    if name == "rechunk":
+        return m.ensure_lazy().rechunk("auto")
+    if name == "reduce_ensemble":
+        return m.reduce_ensemble()
+    if name == "integrated_center_of_mass":
+        return m.integrated_center_of_mass()
+    if name == "gaussian_source_size":
+        return m.gaussian_source_size(0.3)
+    if name == "azimuthal_average":
+        return m.azimuthal_average()
+    if name == "polar_binning":
+        return m.polar_binning(nbins_radial=2, nbins_azimuthal=2, inner=0.0, outer=5.0)
+    if name == "radial_binning":
+        return m.radial_binning(step_size=1.0, inner=0.0, outer=5.0)
+    if name == "bandlimit":
+        return m.bandlimit(0.0, 4.0)
+    if name == "integrate_disc":
+        return m.integrate_disc(position=(0.5, 0.5), radius=0.3)
+    if name == "diffractograms":
+        return m.diffractograms()
+    if name == "integrate":
+        return m.integrate(radial_limits=(0.0, 2.0))
     if name == "poisson_noise":
         return m.poisson_noise(total_dose=1e4, seed=1) if not np.iscomplexobj(m.array) and hasattr(m, "poisson_noise") else "n/a"
     if name == "__getitem__":
@@ -289,7 +337,7 @@ class C32(Property):
         "ASE: Atoms.copy() returns an object sharing no arrays with the original",
         "the snapshots of the conformance oracle (positions, cell, numbers, pbc, array keys; array, metadata, axes metadata)",
     ]
-    assumptions = ["dynamic part: inputs drawn from six crystal families (incl. non-orthogonal cells, atoms outside the cell, shifted "
+    assumptions = ["dynamic part: inputs drawn from eight structure families (incl. non-orthogonal cells, atoms outside the cell, shifted "
                    "origins) and nine measurement kinds; a mutation that needs other inputs would be missed by the snapshots",
                    "to_data_array needs xarray (not installed): its fix is covered by the static table only"]
     rule = ("atoms calls: 31 entry points (potential build finite/infinite, slices, ensembles, frozen phonons, multislice/scan/SMatrix with bare atoms, cell utilities), each fed structure families it accepts and each required to succeed at least once per run x random structures (graphene, hcp, fcc primitive, MoS2, sheared and cubic Si; repeated; "
@@ -306,16 +354,19 @@ class C32(Property):
             if not hasattr(AT, name) and name != "cut_cell":
                 continue
             static_clean = tbl.get(name if name != "cut_cell" else "cut_cell", tbl.get("cut", [])) == []
-            dyn_clean = True
-            for _ in range(ctx.n(6, 40)):
-                a = gen_atoms(rng, rng.choice(["graphene", "hex-bulk", "fcc-primitive", "sheared", "cubic"]))
+            dyn_clean, succeeded = True, 0
+            for _ in range(ctx.n(8, 40)):
+                a = gen_atoms(rng, rng.choice(ATOM_KINDS_FOR.get(name, ATOM_KINDS)))
                 s = snapshot_atoms(a)
                 try:
                     call_atoms(name, a, rng)
+                    succeeded += 1
                 except Exception:  # noqa
                     pass
                 if same_atoms(s, a):
                     dyn_clean = False
+            if not succeeded:
+                raise RuntimeError(f"{name} never succeeded in the static-vs-dynamic comparison")
             ctx.agree(f"static write set vs observed mutation: atoms.{name}", name, static_clean, dyn_clean)
             ctx.case({"static-vs-dynamic": name})
         for meth in ["real", "imag", "phase", "abs", "intensity"]:
@@ -351,7 +402,8 @@ class C32(Property):
             if diff:
                 ctx.violation(f"{case['call']}-mutates-caller-atoms", case, {"changed": diff, "outcome": outcome})
             return outcome
-        m = gen_measurement(rng, case["kind"], force_ens=case["call"] in ("mean", "sum", "__getitem__"))
+        m = gen_measurement(rng, case["kind"], force_ens=case["call"] in ("mean", "sum", "std", "min", "max", "__getitem__"),
+                            lazy=case.get("lazy", False), scan=case.get("scan", False))
         s = snapshot_meas(m)
         try:
             r = call_meas(case["call"], m, rng)
@@ -383,7 +435,9 @@ class C32(Property):
         pairs = [(m, k) for m in MEAS_METHODS for k in MEAS_KINDS if meas_applicable(m, k)]
         for i in range(ctx.n(len(pairs) * 2, len(pairs) * 20)):
             meth, kind = pairs[i % len(pairs)]
-            case = {"what": "measurement", "call": meth, "kind": kind, "seed": rng.randint(0, 10**6)}
+            scan = meth in ("integrated_center_of_mass", "gaussian_source_size") or (kind.startswith("DiffractionPatterns") and rng.random() < 0.4)
+            case = {"what": "measurement", "call": meth, "kind": kind, "seed": rng.randint(0, 10**6), "lazy": rng.random() < 0.4,
+                    "scan": scan and kind.startswith("DiffractionPatterns")}
             out = self.oracle(ctx, case)
             succeeded[("measurement", meth)] = succeeded.get(("measurement", meth), 0) + (out == "ok")
             ctx.count(f"meas:{meth}:{out.split(':')[0]}")
